@@ -20,6 +20,10 @@ SPECIALS = ['quo"te', "ap'os", 'a<b', 'a&b', 'a>b', 'tab\there', 'nl\nhere', 'eÌ
             '\U0001F600 grin', '×©×œ×•×', '  lead', 'trail  ', 'dbl  sp',
             ']]>', '&amp;', '&#65;', '%s', "';--", '<!--c-->', 'Ã©tÃ©', 'a\\b',
             'çŒ«', 'A:B', '*', '?', 'Â¿quÃ©?', 'Â«Ã¯Â»', 'ï¼¡ï¼¢\ufeffï½ƒ']
+# only in attribute values and ILI definitions (in element text the reader's whitespace
+# normalisation would fold some of them, about which no property speaks)
+ATTR_SPECIALS = ['c1\x96ctl', 'nel\x85x', 'ls\u2028ps\u2029x', 'nb\xa0sp', 'zw\u200bsp',
+                 '\x7fdel', 'pua\ue000', 'x\ufffdy']
 PLAIN = ['x', 'Ab c', 'foo', 'bar baz', 'lorem', 'ipsum dolor', 'N', 'v2', 'alpha', 'beta']
 
 VOCAB = ['cat', 'Cat', 'CAT', 'chat', 'rÃ©sumÃ©', 'resume', 'Resume', 'dog', 'Hund',
@@ -38,7 +42,7 @@ LEXFILES = ['noun.animal', 'noun.cognition', 'verb.motion', 'adj.all', 'x.file']
 TAG_CATS = ['tense', 'number', 'penn', 'x']
 ILI_POOL = ['i%d' % i for i in range(1, 13)]
 ILI_STATUSES = ['active', 'provisional', 'deprecated', 'other-status']
-LEX_IDS = ['a', 'ab', 'a-b', 'zz', 'b', 'abc']
+LEX_IDS = ['a', 'ab', 'a-b', 'zz', 'b', 'abc', 'c\u0327a']   # last one: not NFC-stable
 VERSIONS = ['1', '1.0', '2', '1.0+x', '2020-rc.1', '10']
 LANGS = ['en', 'es', 'en-GB', 'ja']
 FRAMES = ['Somebody ----s', 'Somebody ----s something', 'Something ----s',
@@ -79,6 +83,7 @@ class Profile(dict):
                                      ['1.0'], ['1.3']]),
             n_ili_files=rng.choice([0, 1, 2]),
             taxonomy=rng.choice([0.0, 0.5]),   # bias synset relations towards hypernym DAGs
+            p_long=rng.choice([0.0, 0.0, 0.08]),
             p_no_synset_pos=0.0,               # Synset@partOfSpeech is optional in the DTD
             p_frame_no_id=0.0,                 # lexicon-level SyntacticBehaviour@id is optional
         )
@@ -95,9 +100,11 @@ class Gen:
     def chance(self, p) -> bool:
         return self.rng.random() < p
 
-    def s(self, plain=None) -> str:
+    def s(self, plain=None, attr=False) -> str:
         """A string value (attribute-safe: any character; written with char refs)."""
         if self.chance(self.p['special']):
+            if attr and self.chance(self.p.get('p_attr_special', 0.3)):
+                return self.rng.choice(ATTR_SPECIALS)
             return self.rng.choice(SPECIALS)
         return self.rng.choice(plain or PLAIN)
 
@@ -106,6 +113,13 @@ class Gen:
         s = self.s()
         if self.chance(0.3):
             s = s + ' ' + self.s()
+        if self.chance(self.p.get('p_long', 0.0)):
+            # long text: spans many parser chunks and database overflow pages
+            n = self.rng.choice([300, 700, 2500])
+            words = []
+            while sum(len(x) + 1 for x in words) < n:
+                words.append(self.s())
+            s = ' '.join(words)
         return s
 
     def meta(self, force=False):
@@ -118,7 +132,7 @@ class Gen:
             if k == 'confidenceScore':
                 m[k] = self.rng.choice(['0.9', '1.0', '0.25', '1'])
             else:
-                m[k] = self.s()
+                m[k] = self.s(attr=True)
                 if not m[k].strip():
                     m[k] = 'x'
         return m
@@ -130,9 +144,9 @@ class Gen:
     def lexicon_header(self, lid, ver, lang, lmf_ge_11):
         d = {
             'id': lid, 'version': ver,
-            'label': self.s(['Label ' + lid, 'Wordnet', 'Test lexicon']),
+            'label': self.s(['Label ' + lid, 'Wordnet', 'Test lexicon'], attr=True),
             'language': lang,
-            'email': self.s(['m@example.com']),
+            'email': self.s(['m@example.com'], attr=True),
             'license': self.s(['https://creativecommons.org/licenses/by/4.0/', 'MIT']),
             'meta': self.meta(),
         }
@@ -141,7 +155,7 @@ class Gen:
         if self.opt():
             d['url'] = self.s(['https://example.com/' + lid])
         if self.opt():
-            d['citation'] = self.s(['Doe (2020)'])
+            d['citation'] = self.s(['Doe (2020)'], attr=True)
         if lmf_ge_11 and self.opt():
             d['logo'] = self.s(['logo.svg'])
         return d
@@ -243,7 +257,10 @@ class Gen:
                  'pronunciations': self.prons(ge11)}
             if self.chance(0.3):
                 f['script'] = self.rng.choice(SCRIPTS)
-            if (f['writtenForm'], f.get('script')) in used:
+            if (f['writtenForm'], f.get('script')) in used and (
+                    f.get('script') is not None or not self.chance(0.5)):
+                # forms sharing written form AND script violate a schema constraint; equal
+                # written forms without script are ordinary (put / put / put)
                 continue
             used.add((f['writtenForm'], f.get('script')))
             if ge11 and self.chance(0.6):
@@ -600,7 +617,8 @@ def generate(rng: random.Random, profile: Profile | None = None) -> dict:
                 row['definition'] = rng.choice(
                     ['def of %s (%d)' % (ili, i), 'x', '', '"quoted" start of %s' % ili,
                      'a "b" c; d', "it's <b> & co", 'trailing quote"', 'Ã©tÃ© çŒ«  two  spaces',
-                     ' lead space', '\\N', 'NULL'])
+                     ' lead space', '\\N', 'NULL', 'ls\u2028ps\u2029 inside', 'nel\x85 c1\x96',
+                     'vt\x0bff\x0cfs\x1c', 'nb\xa0sp'])
             rows.append(row)
         cols = ['ili']
         if any('status' in r for r in rows):
